@@ -160,6 +160,29 @@ def dense_programs(tier):
     return progs
 
 
+def sibling_programs(tier):
+    """the SAME deep, capture-rich try branch (error-side callback, capture, non-closure operand and inspection in every step) alone,
+    next to 1 / 2 / 11 shallow siblings in front of it, behind it and around it, and next to an equally deep and a deeper one; every
+    subset of its steps fails: what the branch does and yields must not depend on how many siblings are alive beside it"""
+    from . import fam_profiles as fp
+
+    progs = []
+    layouts = [(3,), (4,), (1, 3), (3, 1), (1, 4), (2, 4), (4, 2), (3, 3), (3, 4), (1, 1, 3), (1, 3, 1), (3, 1, 1)]
+    layouts += [(1,) * 11 + (3,), (3,) + (1,) * 11, (1,) * 5 + (3,) + (1,) * 6, (2,) * 11 + (4,), (1,) * 10 + (2, 3)]
+    for ds in layouts:
+        deep = max(range(len(ds)), key=lambda b: (ds[b], b))
+        for mac in ("try_join", "try_join_spawn", "try_join_async"):
+            if len(ds) > 3 and mac != "try_join" and tier == "quick":
+                continue
+            if mac == "try_join_async" and max(ds) > 3:
+                continue
+            for fl in (("Res", "Opt") if mac == "try_join" else ("Res",)):
+                p = fp.build(mac, ds, flavour=fl, rich=True)
+                sub = [fp.slot(deep, k) for k in range(ds[deep])]
+                progs.append(fp.to_prog("siblings/%s/%s/%s" % (mac, fl, fp.pname(ds) if len(ds) <= 4 else "%dx-%d-%d" % (len(ds), deep, sum(ds))), p, [[0]], sub=sub))
+    return progs
+
+
 # ---------------------------------------------------------------------------------------------
 # (b) nesting: inner macro as operand value / inside a block capture / inside a handler
 # ---------------------------------------------------------------------------------------------
